@@ -14,6 +14,12 @@ package connectconformance
 //	        what no real child can be made to do on demand: survive SIGKILL and closed pipes.
 //	mode 2  the REAL localProcess made by runInProcess around a scripted function
 //	mode 3  runTestCasesForServer over a mode-1 process, mode 4 over a mode-2 process
+//	mode 5  the REAL runTestCasesForServer over the REAL runCommand around this test binary re-executed as
+//	        a child that is scripted in what it does with its STDIN: exits at once without reading / after
+//	        reading k bytes / after a delay, closes its stdin and stays, keeps it open unread, or reads the
+//	        request and answers; with a request of a few bytes or of 256 KiB (far beyond what the OS pipe
+//	        takes unread, so the write really blocks) and a starter that hands the process over at once or
+//	        a second later.  Observed: returned within the patience, child gone, passes, setup errors.
 //
 // Observed: did abort();result() (resp. the function) return within the patience of 3 x the two
 // waits of abort's goroutine; the class of the error; is the child gone at that moment (kill(pid, 0)
@@ -47,6 +53,7 @@ import (
 const (
 	verifC11ChildArg  = "verif-c11-child"
 	verifC11HolderArg = "verif-c11-holder"
+	verifC11StdinArg  = "verif-c11-stdin-child"
 	// nobody is left behind: every child and holder ends by itself after this long
 	verifC11ChildLife = 75 * time.Second
 	// for a child to report that it is ready / for its exit to be seen: decides nothing
@@ -64,10 +71,13 @@ var (
 // ---- the child side ----
 
 func verifC11ChildMain() {
-	if len(os.Args) < 2 || (os.Args[1] != verifC11ChildArg && os.Args[1] != verifC11HolderArg) {
+	if len(os.Args) < 2 || (os.Args[1] != verifC11ChildArg && os.Args[1] != verifC11HolderArg && os.Args[1] != verifC11StdinArg) {
 		return
 	}
 	time.AfterFunc(verifC11ChildLife, func() { os.Exit(99) })
+	if os.Args[1] == verifC11StdinArg {
+		verifC11StdinChild()
+	}
 	if os.Args[1] == verifC11HolderArg {
 		signal.Ignore(syscall.SIGTERM, syscall.SIGPIPE, syscall.SIGHUP)
 		time.Sleep(verifC11ChildLife)
@@ -115,6 +125,43 @@ func verifC11ChildMain() {
 	os.Exit(95)
 }
 
+// the child of mode 5: all answers delay reads release code
+func verifC11StdinChild() {
+	num := func(i int) int {
+		n, err := strconv.Atoi(os.Args[i])
+		if err != nil {
+			os.Exit(98)
+		}
+		return n
+	}
+	all, answers, delay, reads, release, code := num(2), num(3), num(4), num(5), num(6), num(7)
+	term := make(chan os.Signal, 1)
+	signal.Notify(term, syscall.SIGTERM)
+	stay := func() {
+		<-term
+		os.Exit(0)
+	}
+	time.Sleep(time.Duration(delay) * time.Millisecond)
+	if all != 0 {
+		_, _ = io.Copy(io.Discard, os.Stdin)
+		if answers != 0 {
+			response, _ := verifC11Response(0, 0)
+			_, _ = os.Stdout.Write(response)
+		}
+		stay()
+	}
+	if reads > 0 {
+		_, _ = io.ReadFull(os.Stdin, make([]byte, reads))
+	}
+	switch release {
+	case 1:
+		os.Exit(code)
+	case 2:
+		_ = os.Stdin.Close()
+	}
+	stay()
+}
+
 // ---- constants of the compiled code ----
 
 // TestVerifConsts prints the durations process.go uses: the period of both waits of abort's goroutine
@@ -142,8 +189,10 @@ func TestVerifConsts(t *testing.T) {
 	_ = proc.stdin.Close()
 	proc.abort()
 	_ = proc.result()
-	body := fmt.Sprintf("Definition c11_grace_ms : N := %d%%N.\nDefinition c11_grace2_ms : N := %d%%N.\nDefinition c11_wait_delay_ms : N := %d%%N.\n",
-		gracefulShutdownPeriod.Milliseconds(), gracefulShutdownPeriod.Milliseconds(), waitDelay.Milliseconds())
+	body := fmt.Sprintf("Definition c11_grace_ms : N := %d%%N.\nDefinition c11_grace2_ms : N := %d%%N.\nDefinition c11_wait_delay_ms : N := %d%%N.\n"+
+		"Definition c11_response_timeout_ms : N := %d%%N.\n",
+		gracefulShutdownPeriod.Milliseconds(), gracefulShutdownPeriod.Milliseconds(), waitDelay.Milliseconds(),
+		serverResponseTimeout.Milliseconds())
 	if err := os.WriteFile(out, []byte(body), 0o644); err != nil {
 		t.Fatal(err)
 	}
@@ -232,6 +281,12 @@ func verifC11ProcRun(args []vsx) vsx {
 		return bad
 	}
 	mode, aborts := args[0].i, args[1].i
+	if mode == 5 {
+		if aborts != 1 {
+			return bad
+		}
+		return verifC11StartRun(args[2].l)
+	}
 	var f [10]int64
 	for i, v := range args[2].l {
 		if v.k != 'i' || v.g != nil || v.i < 0 {
@@ -597,4 +652,136 @@ func verifC11StopBatch(ps verifC11PScript, scriptedOS bool, out func(bool, int, 
 	}
 	results.mu.Unlock()
 	return out(inTime, 0, gone, forced, passes)
+}
+
+// ---- mode 5: the start phase over a real child scripted in what it does with its stdin ----
+
+// what the OS pipe of a child's stdin takes unread on Linux (16 pages); the copy goroutine of os/exec may
+// hold another 32 KiB: requests are either far below or far above
+const verifC11PipeCap = 65536
+
+// (all answers delay reads release code len cap sd n) -> (in-time 0 child-gone 0 passes setups)
+func verifC11StartRun(sc []vsx) vsx {
+	bad := vL(vS("bad-case"))
+	var f [10]int64
+	for i, v := range sc {
+		if v.k != 'i' || v.g != nil || v.i < 0 {
+			return bad
+		}
+		f[i] = v.i
+	}
+	all, answers, delay, reads, release, code, reqLen, pipeCap, sd, n := f[0], f[1], f[2], f[3], f[4], f[5], f[6], f[7], f[8], f[9]
+	big := reqLen >= 4*verifC11PipeCap
+	if all > 1 || answers > 1 || release > 2 || code > 125 || n > 8 || pipeCap != verifC11PipeCap || delay > 5000 || sd > 5000 ||
+		reads > verifC11PipeCap || (!big && reqLen > 4096) || reqLen > 1<<20 || (all == 0 && answers != 0) {
+		return bad
+	}
+	// every scripted moment is at least a second away from every other (the racy pair "lets go at once, written at
+	// once" is allowed where the order does not matter: a child that exits)
+	if delay != sd && ((delay > sd && delay-sd < 1000) || (sd > delay && sd-delay < 1000)) {
+		return bad
+	}
+	if all == 0 && release == 2 && delay == sd && !big {
+		return bad
+	}
+	self, err := os.Executable()
+	if err != nil {
+		return vErr("no-executable")
+	}
+	itoa := func(v int64) string { return strconv.FormatInt(v, 10) }
+	inner := runCommand([]string{self, verifC11StdinArg, itoa(all), itoa(answers), itoa(delay), itoa(reads), itoa(release), itoa(code)})
+	var pid atomic.Int64
+	starter := func(ctx context.Context, pipeStderr bool) (*process, error) {
+		proc, err := inner(ctx, pipeStderr)
+		if err == nil {
+			if cp, ok := proc.processController.(*cmdProcess); ok && cp.cmd.Process != nil {
+				pid.Store(int64(cp.cmd.Process.Pid))
+			}
+		}
+		time.Sleep(time.Duration(sd) * time.Millisecond) // fixes where the fault lands relative to the writes
+		return proc, err
+	}
+	expected := &conformancev1.ClientResponseResult{
+		Payloads: []*conformancev1.ConformancePayload{{Data: []byte("data")}},
+	}
+	var scripts []verifC11Script
+	var testCases []*conformancev1.TestCase
+	counter := &testTrie{}
+	for i := 0; i < int(n); i++ {
+		name := "P/" + strconv.Itoa(i)
+		scripts = append(scripts, verifC11Script{name: name, sendOK: true, report: name})
+		testCases = append(testCases, &conformancev1.TestCase{
+			Request:          &conformancev1.ClientCompatRequest{TestName: name},
+			ExpectedResponse: expected,
+		})
+		counter.addPattern(name)
+	}
+	results := newResults(len(testCases), &testTrie{}, counter, nil)
+	client := &verifC11Client{script: scripts, deadAfter: -1, expected: expected, exit: func() {}}
+	// the ServerCompatRequest carries the server's credentials: that is where a large request comes from
+	creds := &conformancev1.TLSCreds{Cert: []byte("-----CERT-----"), Key: []byte("-----KEY-----")}
+	if big {
+		creds.Cert = bytes.Repeat([]byte("C"), int(reqLen))
+	}
+	done := make(chan struct{})
+	go func() {
+		defer close(done)
+		runTestCasesForServer(
+			context.Background(),
+			false,
+			false,
+			serverInstance{
+				protocol:    conformancev1.Protocol_PROTOCOL_CONNECT,
+				httpVersion: conformancev1.HTTPVersion_HTTP_VERSION_1,
+				useTLS:      true,
+			},
+			testCases,
+			creds,
+			nil,
+			starter,
+			discardPrinter{},
+			discardPrinter{},
+			results,
+			client,
+			nil,
+			false,
+		)
+	}()
+	inTime := false
+	select {
+	case <-done:
+		inTime = true
+	case <-time.After(verifC11StopPatience()):
+	}
+	gone := true
+	if p := int(pid.Load()); p > 0 {
+		gone = errors.Is(syscall.Kill(p, 0), syscall.ESRCH)
+		if !gone {
+			_ = syscall.Kill(p, syscall.SIGKILL) // nobody is left behind (this also lets a blocked writer go, if the code closes the pipe then)
+		}
+	}
+	passes, setups := 0, 0
+	if inTime {
+		results.mu.Lock()
+		for _, sc := range scripts {
+			o, ok := results.outcomes[sc.name]
+			if !ok || verifC11TrieCount(counter, sc.name) != 1 {
+				continue
+			}
+			switch {
+			case o.actualFailure == nil:
+				passes++
+			case o.setupError:
+				var cnr *couldNotRunError
+				if !errors.As(o.actualFailure, &cnr) {
+					setups++
+				}
+			}
+		}
+		results.mu.Unlock()
+	}
+	if !inTime {
+		gone = false
+	}
+	return vL(vBool(inTime), vI(0), vBool(gone), vI(0), vInt(passes), vInt(setups))
 }
